@@ -22,6 +22,7 @@ EXPLANATION = (
     "their shared defaults.  NOT decided: feasibility for all "
     "k >= width, optimality of the slack sum."
     ' (R8, round 3) is_valid_solution() scales the error like the model; with empty paths allowed and path length ranges, length 0 lies in some range; coefficient conversion; validity check on Python numbers.'
+    ' (R8, hunt 4) with a weight superset w_max covers the sum of the given weights; is_valid_solution() accepts one-node routes; known finding: the path length that selects the slack factor counts the two synthetic edges.'
 )
 DECIDED = ["error/slack rows, linking and objective present and complete", "length-factor plumbing", "k=None -> width of the non-ignored part"]
 NOT_DECIDED = ["feasible for every k >= width", "total slack is minimum"]
